@@ -57,7 +57,8 @@ META = {
         "absence test; a return of the option parser that can be reached with defaults present but without their merge is a violation (a warning about the "
         "block does not report the loss; only the docutils TestDirective path is tolerated) - this includes the validate_options=False path, whose raw YAML "
         "mapping must be merged under the same priority rule; in parse_directive_text every path either calls the option parser with the defaults or appends "
-        "a warning under a test that they are present (directives without an option_spec). "
+        "a warning under a test that they are present (directives without an option_spec); the caller's defaults mapping is only read - no mutator call, "
+        "item store or deletion on the parameter or on a name that was made a plain copy of the reference. "
         "R3: the guards of the two MarkupError raises and of the re-split in parse_directive_arguments, as linear normal forms over {len(args), "
         "required, optional}, are exactly len < required / len > required+optional and not final_argument_whitespace / maxsplit = "
         "required+optional-1 under final_argument_whitespace; every path of parse_directive_text either calls parse_directive_arguments or crosses "
@@ -65,7 +66,8 @@ META = {
         "R4: the options parser is only called under a test that implies a non-empty option_spec; the two option-style branches are mutually "
         "exclusive, each assigns the block text and re-assigns the remaining content on every path, and no flag set differently by them is tested "
         "behind their join, both terminate the lines of the block text alike (separator join vs line-terminated join), and recognising the ':' style skips "
-        "spaces and tabs only (no bare lstrip()/strip(), no \\s class); tokenise / yaml load / spec lookup / convert / store / warn lie behind the join; per loop iteration the lookup-failure and "
+        "spaces and tabs only (no bare lstrip()/strip(), no \\s class); when the style test refuses a leading ':::' (nested colon fence), every statement in a "
+        "loop that appends a content line to the option lines is guarded by the same refusal; tokenise / yaml load / spec lookup / convert / store / warn lie behind the join; per loop iteration the lookup-failure and "
         "conversion-failure paths store nothing and report exactly once, the success path stores exactly once (key = option name, value = converter "
         "result, converter = option_spec[name] - looked up by subscript, as docutils does: `.get()` or a membership test bypass a mapping's __getitem__, "
         "e.g. sphinx.ext.autodoc's DummyOptionSpec) and reports nothing; every return hands back the validated dict, a dict no option value can reach "
@@ -1729,6 +1731,42 @@ def r2_priority(corpus: Corpus, rep: Report, tier: str):
                 rep.violation("C08.R2", kb, t.module.site(n), f"`{short(n, 60)}` can be reached with additional options supplied without passing their merge: " + verdict[1])
             else:
                 rep.listed("C08.R2", kb, t.module.site(n), "additional options are not applied on this path: " + verdict[1])
+    # (a'') the externally supplied mapping belongs to the caller: neither the entry nor the option parser may mutate it,
+    # directly or through a plain copy of the reference (`options = additional_options`)
+    for fn_, pname in [(entry, "additional_options")] + [(t, p) for _, (t, p, _) in merges.items()]:
+        fcfg = get_cfg(fn_)
+        direct = copies_of(fn_, pname)
+        aliases: dict[str, ast.stmt] = {}
+        for n_ in fn_.local_nodes():
+            if isinstance(n_, ast.Assign) and len(n_.targets) == 1 and isinstance(n_.targets[0], ast.Name) and isinstance(n_.value, ast.Name) and n_.value.id in direct and n_.targets[0].id not in direct and not getattr(n_, "_c08_glue", False):
+                aliases[n_.targets[0].id] = n_
+        found = []
+        for n_ in fn_.local_nodes():
+            recv = None
+            if isinstance(n_, ast.Call) and isinstance(n_.func, ast.Attribute) and isinstance(n_.func.value, ast.Name) and n_.func.attr in MUTATORS + ("pop", "popitem", "clear", "remove", "sort", "reverse"):
+                recv = n_.func.value.id
+            elif isinstance(n_, ast.Subscript) and isinstance(n_.ctx, (ast.Store, ast.Del)) and isinstance(n_.value, ast.Name):
+                recv = n_.value.id
+            elif isinstance(n_, ast.AugAssign) and isinstance(n_.target, ast.Name) and isinstance(n_.op, ast.BitOr):
+                recv = n_.target.id
+            if recv is None:
+                continue
+            if recv in direct:
+                found.append((n_, f"`{short(n_, 50)}` changes the caller's `{pname}` mapping in place"))
+            elif recv in aliases and fcfg.stmt_of(n_) in fcfg.reachable_from(aliases[recv]):
+                found.append((n_, f"`{short(n_, 50)}` changes `{recv}`, which `{short(aliases[recv], 40)}` made another name for the caller's `{pname}` mapping"))
+        kmut = f"{fn_.fq}|the externally supplied options mapping is only read"
+        if found:
+            for n_, txt in found:
+                rep.violation(
+                    "C08.R2",
+                    kmut + f"|{short(n_, 50)}",
+                    fn_.module.site(n_),
+                    txt + ": options written in one directive's block leak into the defaults the caller applies to the next directive (they then override those defaults and are reported / converted again), "
+                    "so the same (class, first line, content, defaults) no longer gives the same result",
+                )
+        else:
+            rep.ok("C08.R2", kmut, fn_.site())
     # (a') in parse_directive_text itself: on the path that skips the option parser (no option_spec) the defaults cannot be
     # applied; they must then be reported (a warning appended under a test that they are present)
     ecfg = get_cfg(entry)
@@ -2445,6 +2483,55 @@ def r4_one_validation_path(corpus: Corpus, rep: Report, tier: str):
             )
     if not n_ws:
         rep.ok("C08.R4", f"{f.fq}|the ':' option style skips only spaces and tabs", m.site(colon))
+    # ---- the style test and the per-line test are one predicate: when the style test refuses a leading ':::' (a nested colon
+    # fence), every statement that moves a content line into the option lines must be guarded by that refusal as well
+    def refuses_fence(e: ast.AST) -> bool:
+        for c_ in ast.walk(e):
+            if isinstance(c_, ast.Call) and m.resolve(dotted(c_.func) or "").startswith("re.") and c_.args and isinstance(c_.args[0], ast.Constant) and isinstance(c_.args[0].value, str) and ("(?!::)" in c_.args[0].value or "(?!:{2" in c_.args[0].value):
+                return True
+        return any(not pol and isinstance(t_, ast.Call) and isinstance(t_.func, ast.Attribute) and t_.func.attr == "startswith" and t_.args and isinstance(t_.args[0], ast.Constant) and t_.args[0].value == ":::" for t_, pol in split_facts(e, True))
+
+    test_e = colon.test
+    if isinstance(test_e, ast.Name) and single_value(f, test_e.id) is not None:
+        test_e = single_value(f, test_e.id)
+    if refuses_fence(test_e):
+        # the lists that feed the tokenizer input inside the branch
+        feeders = set(VS)
+        branch_st = [st for st in cfg.nodes if isinstance(st, ast.stmt) and cfg.dominates(("T", colon), st)]
+        grew = True
+        while grew:
+            grew = False
+            for st in branch_st:
+                if isinstance(st, (ast.Assign, ast.AnnAssign)) and getattr(st, "value", None) is not None:
+                    tg = [x for t_ in (st.targets if isinstance(st, ast.Assign) else [st.target]) for x in target_names(t_)]
+                    if set(tg) & feeders and not names_in(st.value) <= feeders:
+                        feeders |= names_in(st.value)
+                        grew = True
+        consumers = [st for st in branch_st if isinstance(st, ast.Expr) and isinstance(st.value, ast.Call) and isinstance(st.value.func, ast.Attribute) and st.value.func.attr in ("append", "insert") and isinstance(st.value.func.value, ast.Name) and st.value.func.value.id in feeders and cfg.loops.get(st) is not None]
+        kf = f"{f.fq}|option lines are collected under the same ':::' refusal as the style test"
+        if not consumers:
+            rep.listed("C08.R4", kf, m.site(colon), "no statement inside a loop appends a line to the option lines (collected by slicing / comprehension): not judged")
+        for st in consumers:
+            refused = False
+            style_test_nodes = {id(x_) for x_ in ast.walk(colon.test)}
+            for t_, pol in cfg.guards(st):
+                e_ = t_
+                if id(e_) in style_test_nodes:
+                    continue  # the test on the whole content says nothing about the line being collected
+                if not pol and isinstance(e_, ast.Call) and isinstance(e_.func, ast.Attribute) and e_.func.attr == "startswith" and e_.args and isinstance(e_.args[0], ast.Constant) and e_.args[0].value == ":::":
+                    refused = True
+                if pol and refuses_fence(e_) and any(isinstance(c_, ast.Call) and m.resolve(dotted(c_.func) or "").startswith("re.") for c_ in ast.walk(e_)):
+                    refused = True
+            if refused:
+                rep.ok("C08.R4", kf, m.site(st))
+            else:
+                rep.violation(
+                    "C08.R4",
+                    kf,
+                    m.site(st),
+                    f"`{short(st, 50)}` moves a content line into the option block without testing that it does not start with ':::', although the style test refuses such a first line: "
+                    "a nested ':::' fence directly behind the option lines is consumed as an option (the block becomes malformed and every option is lost, the fence line disappears from the body)",
+                )
     # flags that differ by style and steer control flow behind the join
     in_branch: dict[str, dict[str, list[str]]] = defaultdict(dict)
     for sty, iff in styles.items():
@@ -2766,7 +2853,7 @@ def r4_one_validation_path(corpus: Corpus, rep: Report, tier: str):
             rep.violation("C08.R4", k, site, f"`{short(ret, 60)}` hands back option values from {src_} that never passed the option_spec lookup/conversion loop: unknown or invalid options are kept, unconverted and without a warning")
         else:
             rep.ok("C08.R4", k, site, "no option value can reach this dict (only empty-dict definitions reach the return)")
-    rep.expect_min("C08.R4", 27, "2x2 style-branch obligations, >=8 validation steps, 8 path classes, store roles, 4 returns")
+    rep.expect_min("C08.R4", 28, "2x2 style-branch obligations, >=8 validation steps, 8 path classes, store roles, 4 returns")
 
 
 # ---------------------------------------------------------------------------
@@ -3840,6 +3927,26 @@ def mutants(corpus: Corpus):
         add("c08-trailing-blank-lines-popped", "C08.R5", splice(src, strip_if, seg_if + f"\n{ind_if}while body_lines and not body_lines[-1].strip():\n{ind_if}    body_lines.pop()"), "only changed by the leading-blank strip")
         add("c08-trailing-blank-line-sliced", "C08.R5", splice(src, strip_if, seg_if + f"\n{ind_if}if body_lines and not body_lines[-1].strip():\n{ind_if}    body_lines = body_lines[:-1]"), "only changed by the leading-blank strip")
         add("c08-blank-lines-filtered", "C08.R5", splice(src, strip_if, seg_if + f"\n{ind_if}body_lines = [ln for ln in body_lines if ln.strip()]"), "only changed by the leading-blank strip")
+    # ---- class: the caller's defaults mapping is changed in place (R2)
+    if mg is not None:
+        ind = indent_of(fo, mg)
+        mname = unparse(mg.targets[0])
+        addn = next((unparse(v) for v in mg.value.values if unparse(v) != mname), "additional_options")
+        add("c08-defaults-updated-in-place", "C08.R2", splice(src, mg, f"{addn}.update({mname})\n{ind}{mname} = {addn}"), "mapping is only read")
+        add("c08-defaults-aliased-then-updated", "C08.R2", splice(src, mg, f"_block = {mname}\n{ind}{mname} = {addn}\n{ind}{mname}.update(_block)"), "mapping is only read")
+        add("c08-defaults-key-renamed-in-place", "C08.R2", splice(src, mg, f'if "id" in {addn}:\n{ind}    {addn}["name"] = {addn}.pop("id")\n{ind}' + ast.get_source_segment(src, mg)), "mapping is only read")
+    # ---- class: the per-line option test is weaker than the style test (R4): ':::' lines are collected as options
+    brk = find_node(fo, lambda n: isinstance(n, ast.If) and any(isinstance(x, ast.Break) for x in n.body) and isinstance(n.test, ast.BoolOp) and isinstance(n.test.op, ast.Or) and any(isinstance(c, ast.Constant) and c.value == ":::" for c in ast.walk(n.test)))
+    if brk is not None:
+        keep = [v for v in brk.test.values if not any(isinstance(c, ast.Constant) and c.value == ":::" for c in ast.walk(v))]
+        add("c08-option-line-loop-accepts-fence", "C08.R4", splice(src, brk.test, " or ".join(ast.get_source_segment(src, v) for v in keep)) if keep else None, "':::' refusal")
+        wl = parent(brk)
+        if isinstance(wl, ast.While) and isinstance(wl.body[-1], ast.Expr):
+            line_e = "content_lines[0].lstrip(\" \\t\")"
+            indw = indent_of(fo, wl)
+            add("c08-option-line-loop-condition-only-colon", "C08.R4", splice(src, wl, f"while {ast.get_source_segment(src, wl.test)} and {line_e}.startswith(\":\"):\n{indw}    " + ast.get_source_segment(src, wl.body[-1])), "':::' refusal")
+    else:
+        out.append(("c08-option-line-loop-accepts-fence", "break test with the ':::' refusal not found"))
     # ---- class: a return skips merge + validation of the defaults without reporting it (R2)
     first = fo.node.body[1] if isinstance(fo.node.body[0], ast.Expr) and isinstance(fo.node.body[0].value, ast.Constant) else fo.node.body[0]
     ind0 = indent_of(fo, first)
